@@ -409,8 +409,13 @@ def rule_h(ck, R):
             continue
         for p in ps:
             for e in p.calls():
-                if e.name in ('send_resp_0', 'send_resp_32') and sym.is_c(e.args[2]):
-                    nm = names.get(e.args[2][1], '?')
+                codev = e.args[2] if e.name in ('send_resp_0', 'send_resp_32') else None
+                if codev is not None and not sym.is_c(codev):
+                    for c in p.cond_terms():          # a code passed as a variable that the path has pinned to one enumerator
+                        if c[0] == 'cmp' and c[1] == '==' and strip_cast(c[2]) == strip_cast(codev) and sym.is_c(c[3]):
+                            codev = c[3]
+                if e.name in ('send_resp_0', 'send_resp_32') and sym.is_c(codev):
+                    nm = names.get(codev[1], '?')
                     key = '%s:%s@%s' % (fn, nm, cast.node_line(e.node))
                     want32 = nm in PAYLOAD32
                     ok = (e.name == 'send_resp_32') == want32
@@ -561,8 +566,8 @@ def run(ck):
     ck.rule('C08.a', 'the code tables of doc/regp.txt (types, option bits, response codes, meta codes, version) equal the enumerators/macros')
     ck.rule('C08.b', 'layout: exact bit summary of make_motv = version[3:0] type[7:4] options[11:8] meta[15:12]; header fields written and read big-endian at words 0,1,2-3,4-5,6,7 (C15 codecs)')
     ck.rule('C08.c', 'options: WORD-SIZE-16 per semantic, WITH-HEADER-CRC iff serial, WITH-PAYLOAD-CRC iff serial and payload and not a read request; header length 6+[hdcrc]+[plcrc]')
-    ck.rule('C08.d', 'framing pairs per transport: varint length prefix (TCP) / classic SLIP (serial) on both directions')
-    ck.rule('C08.e', 'the receiver accepts every response code the library emits')
+    ck.rule('C08.d', 'framing pairs per transport: varint length prefix (TCP) / classic SLIP (serial) on both directions; the SLIP encoder\'s escape table and delimiters (C12.a/b re-evaluated)')
+    ck.rule('C08.e', 'the receiver accepts every response code the library emits, and its payload plausibility table (C07.b re-evaluated) admits every payload class the emitters produce')
     ck.rule('C08.f', 'each request emitter uses the session sequence counter and increments it exactly once; 16-bit field')
     ck.rule('C08.g', 'payload checksums are computed over exactly the pointer/length handed to the transport, with the variant matching the word semantic')
     ck.rule('C08.h', 'payload class per response code as prescribed by the document, octet semantics for errors, 32-bit payload big-endian with block size 4, request header echoed')
@@ -574,3 +579,35 @@ def run(ck):
     rule_e(ck, R)
     rule_fg(ck, R)
     rule_h(ck, R)
+    # own frames pass the own receiver: the payload plausibility table of the receiver (C07.b) admits every payload
+    # class the emitters produce (write error responses with their 32-bit payload included)
+    from . import c07
+    keep0 = (ck.rule, ck.verdict, ck.violation, ck.broken, ck.floor, ck.holds)
+    ck.rule = lambda *a, **k: None
+    ck.floor = lambda *a, **k: True
+    only = lambda key: key == 'payload_plausible'
+    ck.verdict = lambda ok, rule, key, where='', detail='', **kw: (keep0[5] if ok else keep0[2])('C08.e', 'receiver:' + key, where, detail, **kw) if only(key) else None
+    ck.violation = lambda rule, key, where='', detail='', **kw: keep0[2]('C08.e', 'receiver:' + key, where, detail, **kw) if only(key) else None
+    ck.broken = lambda rule, key, where='', detail='', **kw: keep0[3]('C08.e', 'receiver:' + key, where, detail, **kw) if only(key) else None
+    ck.holds = lambda rule, key, where='', detail='', **kw: keep0[5]('C08.e', 'receiver:' + key, where, detail, **kw) if only(key) else None
+    try:
+        c07.rule_b(ck, R)
+    finally:
+        ck.rule, ck.verdict, ck.violation, ck.broken, ck.floor, ck.holds = keep0
+    # serial frames leave through rfc1055_encode: its escape table and delimiters (decided as C12.a/b) are an obligation
+    # of "every emitted frame is well-formed on the wire" too; they are re-evaluated here under C08.d
+    from . import c12
+    keep = (ck.rule, ck.verdict, ck.violation, ck.broken, ck.floor, ck.holds)
+    nd = list(ck.not_decided)
+    enc_key = lambda key: key.startswith('encode:') or key.startswith('rfc1055_encode')
+    ck.rule = lambda *a, **k: None
+    ck.floor = lambda *a, **k: True
+    ck.verdict = lambda ok, rule, key, where='', detail='', **kw: (keep[5] if ok else keep[2])('C08.d', 'slip:' + key, where, detail, **kw) if enc_key(key) else None
+    ck.violation = lambda rule, key, where='', detail='', **kw: keep[2]('C08.d', 'slip:' + key, where, detail, **kw) if enc_key(key) else None
+    ck.broken = lambda rule, key, where='', detail='', **kw: keep[3]('C08.d', 'slip:' + key, where, detail, **kw) if enc_key(key) else None
+    ck.holds = lambda rule, key, where='', detail='', **kw: keep[5]('C08.d', 'slip:' + key, where, detail, **kw) if enc_key(key) else None
+    try:
+        c12.run(ck)
+    finally:
+        ck.rule, ck.verdict, ck.violation, ck.broken, ck.floor, ck.holds = keep
+        ck.not_decided[:] = nd
